@@ -44,6 +44,11 @@ def clause_props(cinfo, clause):
             out.add("C05")
         if p == "C06" and ".merge." in clause:
             out.add("C08")
+        # the unions, differences and intersections of term lists are how the algebra layer builds every result
+        if p == "C06" and ".list_union." in clause:
+            out |= {"C05", "C08", "C15"}
+        if p == "C06" and (".list_diff." in clause or ".list_intersection." in clause):
+            out.add("C05")
     # primitive contracts are hypotheses of the C01/C02 theorem chains
     for q, pl in planmod.PLAN.items():
         if out & set(pl.get("chain_props", [])):
